@@ -185,7 +185,7 @@ def run(rep, facts):
             de = ev.switch_expr(n)
             if de is not None:
                 x = ir.peel(de)
-                if x[0] == 'field' and x[2] == 'writeable' and isinstance(lab, tuple) and lab[0] == 'otherwise':
+                if common.writeable_truth(facts, de, lab) is True:
                     gens.add("W")
                 if x[0] == 'call' and x[1].endswith("::contains") and len(x[2]) == 2 and isinstance(lab, tuple) and lab[0] == 'otherwise':
                     a0, a1 = ir.peel(x[2][0]), ir.peel(x[2][1])
@@ -212,7 +212,7 @@ def run(rep, facts):
             continue
         de = ev.switch_expr(n)
         x = ir.peel(de) if de is not None else None
-        if x is not None and x[0] == 'field' and x[2] == 'writeable':
+        if x is not None and common.writeable_truth(facts, de, ('case', 1)) is not None:
             nflag += 1
             if "WA" in must[n.key]:
                 rep.ok("R7.3", "close/writeable-read-after-final-stream", "close() reads the writeable flag only after it awaited writeable()", n.loc())
